@@ -12,7 +12,19 @@ m={"version":1,
 "checks":[],
 "not_applicable":[],
 "notes":"Technique family: static analysis only. Each check decides structural necessary conditions of its property on every path of the current source; what is not decided is stated in DESIGN.md and in each evidence file."}
+import os
+def later(c):
+    # rules the hand-written level text does not name (added in later rounds): take them from the evidence file
+    p='evidence/%s.json'%c['id']
+    if not os.path.exists(p): return ''
+    rules=json.load(open(p))['coverage'].get('rules',[])
+    extra=[r['rule'] for r in rules if ('(= ' not in r['rule'])]
+    named=[x for x in extra if x[:24].lower() in c['text'].lower()]
+    rest=[x for x in extra if x not in named]
+    if not rest: return ''
+    return ' Rule set decided on every run (instance counts in the evidence file): '+'; '.join(rest)+'.'
 for c in checks:
+    c=dict(c); c['text']=c['text']+later(c)
     m["checks"].append({
       "property_id":c['id'],
       "quick_cmd":"bin/qfsa check %s --tier quick"%c['id'],
